@@ -17,7 +17,7 @@ pub(crate) fn id(n: usize) -> Id {
 /// A real Execution (constructed by `Execution::new`) with `n` threads and the
 /// fixed execution id used by `thread::verif::tid`.
 pub(crate) fn mk_exec(n: usize, max_branches: usize, preemption_bound: Option<usize>) -> Execution {
-    let mut e = Execution::new(MAX_THREADS, max_branches, preemption_bound, true);
+    let mut e = Execution::new(n, max_branches, preemption_bound, true);
     e.id = id(tv::EXEC_ID);
     let old = std::mem::replace(&mut e.threads, tv::mk_set(n));
     std::mem::forget(old);
